@@ -268,9 +268,14 @@ let suite_header path =
           let opts = { Header.sorenson = (o land 1 = 1); Header.scalability = (o land 2 = 2) } in
           let prev =
             if prevhex = "-" then None
-            else match Header.decode_picture opts None (Reader.reader_of_bytes (zs_of_hex prevhex)) with
-              | Prelude.Ok (Some p, _) -> Some (if pfn = "1" then { p with Header.format = None } else p)
-              | _ -> failwith "prev header must parse" in
+            else
+              Stdlib.List.fold_left
+                (fun (prev, k) ph ->
+                  match Header.decode_picture opts prev (Reader.reader_of_bytes (zs_of_hex ph)) with
+                  | Prelude.Ok (Some p, _) -> (Some (if k = 0 && pfn = "1" then { p with Header.format = None } else p), k + 1)
+                  | _ -> failwith "prev header must parse")
+                (None, 0) (String.split_on_char ',' prevhex)
+              |> fst in
           let r = Reader.reader_of_bytes (zs_of_hex hex) in
           (match Header.decode_picture opts prev r with
            | Prelude.Ok (Some h, r') -> Printf.printf "%s ok %s next=%s\n" idx (hdr_str h) (next_str r')
